@@ -472,6 +472,7 @@ impl Prop for C20 {
           years.extend((1..=9998).filter(|y| y % 25 == 0 && !(1900..=2100).contains(y)));
         }
         years.extend([8, 9, 19, 23, 24, 25, 236, 237, 239, 240].iter());
+        let mut rev = Reverse::new(3);
         for (j, y) in years.iter().enumerate() {
           if j % nshards != shard {
             continue;
@@ -480,9 +481,11 @@ impl Prop for C20 {
             let dc = LunarMonth::from_ym(*y as isize, m as isize).get_day_count() as i64;
             for d in 1..=dc {
               run_case(env, out, "ldate", &Case::ints(&[*y, m, d]), &ev);
+              rev.note("ldate", &Case::ints(&[*y, m, d]));
             }
           }
         }
+        rev.run(env, out, &ev);
         out.set_exhaustive("ldate", false);
       }
       "holiday" => {
